@@ -111,6 +111,13 @@ class Gen:
     def rand_spec(self, allow_var=True, allow_short=True, allow_missing=False):
         rng = self.rng
         if allow_missing and rng.random() < 0.5:
+            if self.proto == "ipfix" and rng.random() < 0.4:
+                # an ENTERPRISE element nobody knows whose id is a well-known IANA id (reverse elements of RFC 5103, PEN 29305, and
+                # other enterprises): it is unknown all the same
+                for _ in range(50):
+                    k = (rng.choice([29305, 29305, 9, 4294967295, 1]), rng.choice([1, 2, 8, 12, 4, 7, 152, 27]))
+                    if k not in self.model:
+                        return (k[1], k[0], rng.choice([1, 2, 4, 8]))
             for _ in range(50):
                 k = (0, rng.randrange(1, 32768))
                 if k not in self.model:
